@@ -534,7 +534,7 @@ abs_dimension = abs(dimension)
 intent = Pattern("<intent>", r"INTENT", flags=re.I)
 abs_intent = abs(intent)
 
-intent_spec = Pattern("<intent-spec>", r"INOUT|IN|OUT", flags=re.I)
+intent_spec = Pattern("<intent-spec>", r"IN\s*OUT|IN|OUT", flags=re.I)
 abs_intent_spec = abs(intent_spec)
 
 function = Pattern("<function>", r"FUNCTION", flags=re.I)
